@@ -227,19 +227,38 @@ func (rr *renderer) renderList(f *fileBuf, dirs []*Dir, depth int) {
 		annotated := false
 		if d.Annot != "" {
 			annotated = true
-			if l.ch(d.ID, "blockannot", l.PBlockAnnot) {
-				f.sb.WriteString(" /*")
+			lr := &lrnd{l: l, id: d.ID, what: "annotpad"}
+			if strings.Contains(d.Annot, "#") || l.ch(d.ID, "blockannot", l.PBlockAnnot) {
+				// /* text */ : blanks around the text are optional, the text may continue on the following lines
+				txt := d.Annot
+				before, after := " ", " "
+				if l.PBlockAnnot > 0 && chance(lr, 1, 2) {
+					before = pick(lr, []string{"", "", "  ", "\t"})
+					after = pick(lr, []string{"", "", "  "})
+					if chance(lr, 1, 4) && strings.Contains(txt, " ") {
+						i := strings.Index(txt, " ")
+						txt = txt[:i] + l.EOL + "   " + txt[i+1:]
+						f.line++
+						rr.out.Features["block-annotation-multiline"]++
+					}
+				}
+				f.sb.WriteString(pick(lr, []string{" ", " ", "  ", "\t"}) + "/*") // a blank is required: "@t/*" is a bare parameter
 				ab := f.off()
-				f.sb.WriteString(" " + d.Annot + " ")
+				f.sb.WriteString(before + txt + after)
 				f.spans = append(f.spans, Span{'A', ab, f.off() - 1})
 				f.sb.WriteString("*/")
 				rr.out.Features["block-annotation"]++
 			} else {
 				f.sb.WriteString(" //")
 				ab := f.off()
-				f.sb.WriteString(" " + d.Annot)
+				f.sb.WriteString(pick(lr, []string{" ", " ", "", "  "}) + d.Annot)
 				f.spans = append(f.spans, Span{'A', ab, f.off() - 1})
 				rr.out.Features["line-annotation"]++
+				if l.PEolComment > 0 && chance(lr, 1, 6) {
+					// a comment ends the annotation, with or without a blank before the '#'
+					f.sb.WriteString(pick(lr, []string{" # ", "# ", " #"}) + genWords(lr, 2))
+					rr.out.Features["comment-after-annotation"]++
+				}
 			}
 		}
 		if !annotated && d.BodyKind != "text" && l.ch(d.ID, "eolcomment", l.PEolComment) {
